@@ -1962,6 +1962,18 @@ class TLSConnection(TLSRecordLayer):
 
             if cipherSuite in CipherSuite.dhAllSuites:
                 self.dhGroupSize = numBits(serverKeyExchange.dh_p)
+                # minKeySize/maxKeySize are documented to apply to
+                # Diffie-Hellman parameters too
+                if self.dhGroupSize < settings.minKeySize:
+                    for result in self._sendError(
+                            AlertDescription.insufficient_security,
+                            "DH prime too small: %d" % self.dhGroupSize):
+                        yield result
+                if self.dhGroupSize > settings.maxKeySize:
+                    for result in self._sendError(
+                            AlertDescription.insufficient_security,
+                            "DH prime too large: %d" % self.dhGroupSize):
+                        yield result
             if cipherSuite in CipherSuite.ecdhAllSuites:
                 self.ecdhCurve = serverKeyExchange.named_curve
 
